@@ -620,6 +620,30 @@ func certZoo() []ZooCert {
 			}
 		}
 	}
+	// (6e) genuine DSA groups of moderate size (q prime, p = kq + 1 prime, g of order q): public values inside the subgroup
+	// (y = g^x), the same plus P, outside it, and the edges 1, 2, P - 2, P - 1 - keys the subgroup lint accepts at a size
+	// the model exponentiates inside the assistant
+	for _, cc := range loadCorpus().Certs {
+		if cc.File != "dsaUniqueRep.pem" {
+			continue
+		}
+		oid, _ := asn1.Marshal(asn1.ObjectIdentifier{1, 2, 840, 10040, 4, 1})
+		for gi, grp := range dsaGroups() {
+			p, q, g := grp[0], grp[1], grp[2]
+			y := new(big.Int).Exp(g, big.NewInt(int64(12345+gi)), p)
+			ys := []*big.Int{y, new(big.Int).Add(y, p), new(big.Int).Add(y, big.NewInt(1)), big.NewInt(1), big.NewInt(2), new(big.Int).Sub(p, big.NewInt(2)), new(big.Int).Sub(p, big.NewInt(1)), new(big.Int).Set(g)}
+			for yi, yy := range ys {
+				pb, _ := asn1.Marshal(p)
+				qb, _ := asn1.Marshal(q)
+				gb, _ := asn1.Marshal(g)
+				yb, _ := asn1.Marshal(yy)
+				nspki := encTLV(0x30, concat(encTLV(0x30, concat(oid, encTLV(0x30, concat(pb, qb, gb)))), encTLV(0x03, concat([]byte{0}, yb))))
+				if der, err := replaceTBSField(cc.DER, 5, nspki); err == nil {
+					add("key-params", fmt.Sprintf("group%d-y%d", gi, yi), der)
+				}
+			}
+		}
+	}
 	// (7) own-key signatures under another issuer name
 	for _, cc := range ownKeyCerts() {
 		out = append(out, ZooCert{cc, "own-key"})
